@@ -135,6 +135,7 @@ def run(ctx):
     rr = decode_with_tlc(ctx, [c1, c2, c3], "corrupt")
     if any(v == "" for v in rr.values()):
         raise ToolError("vacuity guard: a corrupted stream was accepted by ProtoWire: %s" % rr)
+    ctx.cov["nonblocking_sink_and_concurrent_encode_cases"] = c04.writer_and_thread_cases(ctx, exe, "pb")
     ctx.cov.update({
         "programs": len(recs), "disagreements_checked": len(recs), "disagreements_found": len(recs) - nok, "bytes_decoded_by_TLC": sum(len(r["bytes"]) for r in recs),
         "families": sum(len(r["exp"]) for r in recs), "refusal_cases": len(refusals), "corrupted_controls_rejected": 3,
